@@ -352,3 +352,217 @@ Proof.
   { destruct Henr as [He Hi]. unfold enroll. rewrite He. cbn. rewrite Hfresh. auto. }
   destruct Hig as [Hig Hfl]. rewrite Hfl. apply rows_rdf11_app; [reflexivity|]. apply appended_quads_rdf11; [apply stmts_rdflib_lang; exact Hrd | exact Hig].
 Qed.
+
+(* ---------- GRAPHS: the rows of a whole rdflib GraphStream run over Dataset.graphs() ---------- *)
+From PJ.Proofs Require Import EncGraphs.
+
+Lemma appended_triples_rdf11_g stmts : forall s, stmts_rdf11 stmts = true -> stmts_lang_ok stmts = true -> st_integ s = Generic ->
+  rows_rdf11 (appended_triples stmts s).
+Proof.
+  unfold appended_triples. induction stmts as [|st rest IH]; intros s H11 Hl Hig; cbn [appended_all]; [reflexivity|].
+  cbn [stmts_rdf11 stmts_lang_ok forallb] in H11, Hl. apply andb_prop in H11. destruct H11 as [H1 H2]. apply andb_prop in Hl. destruct Hl as [Hl1 Hl2].
+  destruct (stream_triple st s) as [s1 [fr|e]] eqn:E; [|reflexivity].
+  destruct (stream_triple_encode _ _ _ _ E) as [Henc Hig1]. rewrite Hig in Henc. rewrite (encode_triple_agree _ _ _ H1) in Henc.
+  apply rows_rdf11_app; [eapply encode_triple_rdf11; eauto | apply IH; [exact H2 | exact Hl2 | congruence]].
+Qed.
+
+(* a graph name of an rdflib Dataset as the generic twin sees it *)
+Definition gname_ok (g : term) : bool := match g with TIri _ | TBnode _ | TDefault => true | _ => false end.
+
+Lemma graph_start_rows_rdf11 g t t' rows : gname_ok g = true -> encode_graph_start Generic g t = Ok (t', rows) -> rows_rdf11 rows.
+Proof.
+  unfold encode_graph_start, bind. destruct g as [x|x|l lg d|s p o| |]; cbn [gname_ok encode_graph_term]; try discriminate; intros _.
+  - unfold bind. destruct (encode_iri x (start_statement t)) as [[[[t1 r1] pi] ni]|] eqn:E; [|discriminate]. intros H; inversion H; subst.
+    apply rows_rdf11_app; [eapply encode_iri_rdf11; eauto | reflexivity].
+  - intros H; inversion H; subst. reflexivity.
+  - intros H; inversion H; subst. reflexivity.
+Qed.
+
+Lemma stream_graph_integ g ts s s' evs ok : stream_graph g ts s = (s', evs, ok) -> st_integ s' = st_integ s.
+Proof.
+  unfold stream_graph. destruct (st_failed s); [intros H; inversion H; reflexivity|].
+  destruct (encode_graph_start (st_integ s) g (st_enc s)) as [[t' rows]|]; [|intros H; inversion H; reflexivity].
+  set (s1 := with_enc s t' (st_rep s) (flow_extend (st_flow s) rows)).
+  assert (Hgt : forall ts0 s0 s2 evs2 ok2, graph_triples ts0 s0 = (s2, evs2, ok2) -> st_integ s2 = st_integ s0).
+  { induction ts0 as [|tr rest IH]; intros s0 s2 evs2 ok2; cbn [graph_triples]; [intros H; inversion H; reflexivity|].
+    destruct (stream_triple tr s0) as [sa [fr|e]] eqn:E.
+    - destruct (graph_triples rest sa) as [[sb evsb] okb] eqn:E2. intros H; inversion H; subst. rewrite (IH _ _ _ _ E2).
+      unfold stream_triple, refuse in E. destruct (st_failed s0); [inversion E|]. destruct (encode_triple _ _ _ _) as [[[? ?] ?]|]; [|inversion E].
+      destruct (frame_from_bounds _). inversion E; reflexivity.
+    - intros H; inversion H; subst. unfold stream_triple, refuse in E. destruct (st_failed s0); [inversion E; reflexivity|].
+      destruct (encode_triple _ _ _ _) as [[[? ?] ?]|]; [destruct (frame_from_bounds _); inversion E | inversion E; reflexivity]. }
+  destruct (graph_triples ts s1) as [[s2 evs2] ok2] eqn:Et. pose proof (Hgt _ _ _ _ _ Et) as H2.
+  destruct ok2; [destruct (frame_from_bounds _)|]; intros H; inversion H; subst; cbn [with_flow st_integ]; rewrite H2; reflexivity.
+Qed.
+
+Lemma graphs_rows_rdf11 gs : forall s, st_integ s = Generic ->
+  forallb (fun gts => gname_ok (fst gts) && stmts_rdf11 (snd gts) && stmts_lang_ok (snd gts)) gs = true ->
+  rows_rdf11 (graphs_rows gs s).
+Proof.
+  induction gs as [|[g ts] rest IH]; intros s Hig Hok; cbn [graphs_rows]; [reflexivity|].
+  cbn [forallb fst snd] in Hok. apply andb_prop in Hok. destruct Hok as [Hg Hrest]. apply andb_prop in Hg. destruct Hg as [Hg Hl]. apply andb_prop in Hg. destruct Hg as [Hn H11].
+  destruct (stream_graph g ts s) as [[s' evs] ok] eqn:E. destruct ok; [|reflexivity].
+  apply rows_rdf11_app; [|apply IH; [rewrite (stream_graph_integ _ _ _ _ _ _ E); exact Hig | exact Hrest]].
+  unfold graph_rows. rewrite Hig. destruct (encode_graph_start Generic g (st_enc s)) as [[t' rows]|] eqn:Eg; [|reflexivity].
+  apply rows_rdf11_app; [eapply graph_start_rows_rdf11; eauto|]. apply rows_rdf11_app; [|reflexivity].
+  apply appended_triples_rdf11_g; [exact H11 | exact Hl | exact Hig].
+Qed.
+
+Lemma graphs_inv_ok gs :
+  forallb (fun gts => rdf_graph_ok (fst gts) && stmts_rdf11 (snd gts) && stmts_lang_ok (snd gts)) gs = true ->
+  forallb (fun gts => gname_ok (fst gts) && stmts_rdf11 (snd gts) && stmts_lang_ok (snd gts)) (graphs_inv gs) = true.
+Proof.
+  unfold graphs_inv. induction gs as [|[g ts] rest IH]; cbn [map forallb fst snd]; [reflexivity|]. intros H.
+  apply andb_prop in H. destruct H as [Hg Hrest]. rewrite (IH Hrest), andb_true_r.
+  apply andb_prop in Hg. destruct Hg as [Hg Hl]. apply andb_prop in Hg. destruct Hg as [Hn H11]. rewrite H11, Hl, !andb_true_r.
+  destruct g as [x|x|l lg d|s p o| |]; cbn in *; try discriminate; [destruct (str_eqb x rdflib_default_graph); reflexivity | reflexivity].
+Qed.
+
+Lemma graph_triples_conserves ts : forall sx sy evy, graph_triples ts sx = (sy, evy, true) ->
+  emitted_rows evy ++ fl_rows (st_flow sy) = fl_rows (st_flow sx) ++ appended_triples ts sx.
+Proof.
+  induction ts as [|tr rest IH]; intros sx sy evy; cbn [graph_triples]; unfold appended_triples; cbn [appended_all].
+  - intros H; inversion H; subst. cbn. now rewrite app_nil_r.
+  - destruct (stream_triple tr sx) as [sa' [fr|e]] eqn:E; [|intros H; inversion H].
+    destruct (graph_triples rest sa') as [[sb' evb] okb] eqn:E2. intros H; inversion H; subst.
+    specialize (IH _ _ _ E2). unfold appended_triples in IH. rewrite emitted_rows_app, emitted_rows_emit_opt, <- app_assoc, IH.
+    unfold stream_triple, refuse, appended_triple in *. destruct (st_failed sx); [inversion E|].
+    destruct (encode_triple _ _ _ _) as [[[t2 rp2] rows2]|]; [|inversion E].
+    destruct (frame_from_bounds (flow_extend (st_flow sx) rows2)) as [fl2 fr2] eqn:Ef2. inversion E; subst. cbn.
+    pose proof (frame_from_bounds_conserves (flow_extend (st_flow sx) rows2)) as Hc2. rewrite Ef2 in Hc2. cbn in Hc2.
+    rewrite app_assoc, Hc2. now rewrite <- app_assoc.
+Qed.
+
+Lemma stream_graph_conserves g ts sa s1 evs1 : stream_graph g ts sa = (s1, evs1, true) ->
+  emitted_rows evs1 ++ fl_rows (st_flow s1) = fl_rows (st_flow sa) ++ graph_rows g ts sa.
+Proof.
+  intros E. unfold stream_graph, graph_rows in *. destruct (st_failed sa); [inversion E|].
+  destruct (encode_graph_start (st_integ sa) g (st_enc sa)) as [[t' rows]|]; [|inversion E].
+  set (sx := with_enc sa t' (st_rep sa) (flow_extend (st_flow sa) rows)) in *.
+  destruct (graph_triples ts sx) as [[sy evy] oky] eqn:Et. destruct oky; [|inversion E].
+  destruct (frame_from_bounds (flow_extend (st_flow sy) [RGraphEnd])) as [fl fr] eqn:Ef. inversion E; subst. cbn.
+  rewrite emitted_rows_app, emitted_rows_emit_opt.
+  pose proof (frame_from_bounds_conserves (flow_extend (st_flow sy) [RGraphEnd])) as Hc. rewrite Ef in Hc. cbn in Hc.
+  rewrite <- app_assoc, Hc. rewrite app_assoc, (graph_triples_conserves _ _ _ _ Et). subst sx. cbn. now rewrite <- !app_assoc.
+Qed.
+
+Lemma feed_graphs_generic_conserves gs : forall first sa sb ev, feed_graphs_generic first gs sa = (sb, ev, true) ->
+  emitted_rows ev ++ fl_rows (st_flow sb) = fl_rows (st_flow sa) ++ graphs_rows gs sa.
+Proof.
+  induction gs as [|[g ts] rest IH]; intros first sa sb ev; cbn [feed_graphs_generic graphs_rows].
+  - intros H; inversion H; subst. cbn. now rewrite app_nil_r.
+  - destruct (stream_graph g ts sa) as [[s1 evs1] ok1] eqn:E. destruct ok1; [|intros H; inversion H].
+    destruct (feed_graphs_generic false rest s1) as [[s2' evs2'] ok2] eqn:E2. intros H; inversion H; subst.
+    specialize (IH _ _ _ _ E2).
+    rewrite !emitted_rows_app, emitted_rows_pulls. cbn [app]. rewrite <- app_assoc, IH.
+    rewrite app_assoc, (stream_graph_conserves _ _ _ _ _ E). now rewrite <- app_assoc.
+Qed.
+
+Lemma rdf_graphs_rows_rdf11 (o : soptions) (s s' : stream) (d : rdata) (evs : list tev) :
+  stream_new GraphStream Rdflib o = Ok s -> cfg_ok o (st_logical s) ->
+  p_nd (so_params o) = false -> fl_rows (st_flow s) = [] ->
+  forallb (fun gts => rdf_graph_ok (fst gts) && stmts_rdf11 (snd gts) && stmts_lang_ok (snd gts)) (rd_graphs d) = true ->
+  rdf_graphs_stream_frames d s = (s', evs) -> raised evs = None ->
+  rows_rdf11 (flat_map f_rows (emitted evs)).
+Proof.
+  intros Hnew Hcfg Hnd Hfresh Hok Hrun Hraise.
+  assert (H11 : graphs_rdf11 (rd_graphs d) = true).
+  { unfold graphs_rdf11. clear -Hok. induction (rd_graphs d) as [|[g ts] rest IH]; cbn [forallb fst snd] in *; [reflexivity|].
+    apply andb_prop in Hok. destruct Hok as [Hg Hrest]. apply andb_prop in Hg. destruct Hg as [Hg _]. apply andb_prop in Hg. destruct Hg as [_ ->]. exact (IH Hrest). }
+  destruct (start_of_stream_rdflib _ _ _ Hnew Hcfg) as (sg & Hg & He & Hr & Hf & Hl & Hop & Hrow & Hig).
+  assert (Hopts : st_opts (enroll s) = o).
+  { unfold enroll. unfold stream_new in Hnew. destruct (negb _); [discriminate|]. unfold bind in Hnew.
+    destruct (match so_flow o with Some f => Ok f | None => infer_flow GraphStream o end); [|discriminate].
+    destruct (negb _); [discriminate|]. inversion Hnew; subst; reflexivity. }
+  assert (Henr : st_enrolled s = false).
+  { unfold stream_new in Hnew. destruct (negb _); [discriminate|]. unfold bind in Hnew.
+    destruct (match so_flow o with Some f => Ok f | None => infer_flow GraphStream o end); [|discriminate].
+    destruct (negb _); [discriminate|]. inversion Hnew; reflexivity. }
+  assert (Hflow : fl_rows (st_flow (enroll s)) = [options_row s]).
+  { unfold enroll. rewrite Henr. cbn. rewrite Hfresh. reflexivity. }
+  assert (Hig' : st_integ (enroll s) = Rdflib) by (unfold enroll; rewrite Henr; cbn; exact Hig).
+  unfold rdf_graphs_stream_frames, rdf_ns_phase in Hrun. rewrite Hopts, Hnd in Hrun.
+  rewrite <- emitted_rows_is_concat.
+  destruct (feed_graphs (rd_graphs d) (enroll s)) as [[s2 evs2] ok] eqn:Efeed. destruct ok.
+  - destruct (finish false s2) as [s3 fin] eqn:F. inversion Hrun; subst s' evs; clear Hrun.
+    destruct (feed_graphs_twin _ true _ _ _ Hig' H11 Efeed) as (evs' & Hf' & Hev).
+    pose proof (feed_graphs_generic_conserves _ _ _ _ _ Hf') as Hcons.
+    pose proof (finish_conserves _ _ _ _ F) as H2. pose proof (finish_flushes _ _ _ _ F) as H3.
+    rewrite H3, app_nil_r in H2.
+    rewrite !emitted_rows_app, H2.
+    assert (Hpre : emitted_rows (match rd_kind d with RGen => Pull :: pulls (length (rd_stmts d)) | _ => [] end) = []).
+    { destruct (rd_kind d); try reflexivity. apply (emitted_rows_pulls (S (length (rd_stmts d)))). }
+    rewrite Hpre. cbn [app]. rewrite <- Hev. cbn [twin st_flow] in Hcons. rewrite Hcons, Hflow.
+    apply rows_rdf11_app; [reflexivity|]. apply graphs_rows_rdf11; [reflexivity | apply graphs_inv_ok; exact Hok].
+  - inversion Hrun; subst. exfalso. rewrite raised_app in Hraise.
+    assert (Hpre : raised (match rd_kind d with RGen => Pull :: pulls (length (rd_stmts d)) | _ => [] end) = None).
+    { destruct (rd_kind d); try reflexivity. apply (pulls_raised (S (length (rd_stmts d)))). }
+    rewrite Hpre in Hraise. eapply feed_graphs_not_ok; eauto.
+Qed.
+
+(* what a GRAPHS stream of an rdflib Dataset denotes is its own view where names and terms are ones rdflib can hold *)
+Definition graphs_rdflib (gs : list (term * list (list term))) : bool :=
+  forallb (fun gts => term_rdflib (fst gts) && stmts_rdflib (snd gts)) gs.
+
+Lemma eview_graphs gs : graphs_rdflib gs = true ->
+  map eview (flat_map run_events (graphs_inv gs)) = flat_map run_events (graphs_inv gs).
+Proof.
+  unfold graphs_rdflib, graphs_inv. induction gs as [|[g ts] rest IH]; cbn [forallb map flat_map fst snd]; [reflexivity|]. intros H.
+  apply andb_prop in H. destruct H as [Hg Hrest]. apply andb_prop in Hg. destruct Hg as [Hn Hts].
+  rewrite map_app, (IH Hrest). f_equal. unfold run_events. cbn [fst snd].
+  pose proof (term_rdflib_gcorr _ Hn) as Hn'. clear -Hts Hn'. unfold stmts_rdflib in Hts.
+  induction ts as [|tr ts IHt]; cbn [flat_map forallb] in *; [reflexivity|].
+  apply andb_prop in Hts. destruct Hts as [Htr Hts]. rewrite map_app, (IHt Hts). f_equal.
+  destruct tr as [|s [|p [|o r]]]; try reflexivity. cbn [forallb] in Htr.
+  apply andb_prop in Htr. destruct Htr as [Hs Htr]. apply andb_prop in Htr. destruct Htr as [Hp Htr]. apply andb_prop in Htr. destruct Htr as [Ho _].
+  cbn [quad_event map eview]. now rewrite !rview_norm.
+Qed.
+
+Lemma graphs_rdflib_lang gs : graphs_rdf11 gs = true -> graphs_rdflib gs = true -> forallb (fun gts => rdf_graph_ok (fst gts)) gs = true ->
+  forallb (fun gts => rdf_graph_ok (fst gts) && stmts_rdf11 (snd gts) && stmts_lang_ok (snd gts)) gs = true.
+Proof.
+  unfold graphs_rdf11, graphs_rdflib. induction gs as [|[g ts] rest IH]; cbn [forallb fst snd]; [reflexivity|]. intros H1 H2 H3.
+  apply andb_prop in H1. destruct H1 as [A1 B1]. apply andb_prop in H2. destruct H2 as [A2 B2]. apply andb_prop in H3. destruct H3 as [A3 B3].
+  apply andb_prop in A2. destruct A2 as [_ A2]. rewrite A3, A1, (stmts_rdflib_lang _ A2), (IH B1 B2 B3). reflexivity.
+Qed.
+
+(* ---------- with namespace declarations: the rows of a whole rdflib triples run, whatever the option says ---------- *)
+From PJ.Proofs Require Import EncRdflibNs.
+
+Lemma declare_all_flow_rdf11 ns : forall s, rows_rdf11 (fl_rows (st_flow s)) ->
+  rows_rdf11 (fl_rows (st_flow (fst (declare_all ns s)))) /\ st_integ (fst (declare_all ns s)) = st_integ s.
+Proof.
+  induction ns as [|[name iri] ns IH]; intros s Hf; cbn [declare_all]; [split; [exact Hf | reflexivity]|].
+  unfold namespace_declaration. destruct (st_failed s); [split; [exact Hf | reflexivity]|].
+  destruct (encode_namespace_declaration name iri (st_enc s)) as [[t' rows]|] eqn:E; [|split; [exact Hf | reflexivity]].
+  set (s1 := with_enc s t' (st_rep s) (flow_extend (st_flow s) rows)).
+  assert (Hf1 : rows_rdf11 (fl_rows (st_flow s1))).
+  { subst s1. cbn [with_enc st_flow]. unfold flow_extend, flow_set_rows. destruct (st_flow s); cbn in *. apply rows_rdf11_app; [exact Hf|].
+    unfold encode_namespace_declaration, bind in E. destruct (encode_iri iri (start_statement (st_enc s))) as [[[[t1 r1] pi] ni]|] eqn:Ei; [|discriminate].
+    inversion E; subst. apply rows_rdf11_app; [eapply encode_iri_rdf11; eauto | reflexivity]. }
+  destruct (IH s1 Hf1) as [H1 H2]. split; [exact H1 | rewrite H2; reflexivity].
+Qed.
+
+Lemma rdf_triples_rows_rdf11_ns (o : soptions) (s s' : stream) (d : rdata) (evs : list tev) :
+  stream_new TripleStream Rdflib o = Ok s -> fl_rows (st_flow s) = [] ->
+  rd_kind d <> RDataset -> stmts_lang_ok (rd_stmts d) = true ->
+  rdf_triples_stream_frames d s = (s', evs) -> raised evs = None ->
+  rows_rdf11 (flat_map f_rows (emitted evs)).
+Proof.
+  intros Hnew Hfresh Hk Hl Hrun Hraise.
+  rewrite (rdf_triples_as_generic d s Hk) in Hrun.
+  pose proof (triples_stream_rows _ _ _ _ Hrun Hraise) as Hrows.
+  rewrite <- emitted_rows_is_concat, Hrows.
+  assert (Henr : st_enrolled s = false /\ st_integ s = Rdflib).
+  { unfold stream_new in Hnew. destruct (negb _); [discriminate|]. unfold bind in Hnew.
+    destruct (match so_flow o with Some f => Ok f | None => infer_flow TripleStream o end); [|discriminate].
+    destruct (negb _); [discriminate|]. inversion Hnew; subst; cbn. auto. }
+  assert (Hig : st_integ (enroll s) = Rdflib /\ fl_rows (st_flow (enroll s)) = [options_row s]).
+  { destruct Henr as [He Hi]. unfold enroll. rewrite He. cbn. rewrite Hfresh. auto. }
+  destruct Hig as [Hig Hfl].
+  assert (Hns : rows_rdf11 (fl_rows (st_flow (fst (ns_phase false (sdata_of d) (enroll s))))) /\ st_integ (fst (ns_phase false (sdata_of d) (enroll s))) = Rdflib).
+  { unfold ns_phase. destruct (p_nd _); [|cbn [fst]; rewrite Hfl; split; [reflexivity | exact Hig]].
+    destruct (d_is_sink (sdata_of d)); [|cbn [fst]; rewrite Hfl; split; [reflexivity | exact Hig]].
+    destruct (declare_all_flow_rdf11 (d_namespaces (sdata_of d)) (enroll s) ltac:(rewrite Hfl; reflexivity)) as [H1 H2]. split; [exact H1 | rewrite H2; exact Hig]. }
+  destruct Hns as [Hn1 Hn2]. apply rows_rdf11_app; [exact Hn1|]. apply appended_triples_rdf11; [exact Hl | exact Hn2].
+Qed.
